@@ -70,11 +70,18 @@ class SlurmSuite(Suite):
                 _l.append(s)
         self._saved_time = rc.time
         rc.time = common.dual_time(_T)
+        # a sleep anywhere else in the SLURM boundary code (a module that sleeps on its own between attempts) must not
+        # turn the suite into minutes of waiting: the process-wide time.sleep records and returns, too
+        import time as _time
+        self._real_sleep = _time.sleep
+        _time.sleep = _T.sleep
         os.environ.setdefault("USER", "verif")
 
     def teardown(self):
         self._rc.subprocess = self._saved[0]
         self._rc.time = self._saved_time
+        import time as _time
+        _time.sleep = self._real_sleep
 
     # ------------------------------------------------------------------ generators
     def cases(self, rng, tier, prop):
